@@ -34,7 +34,7 @@ DistScaled(s, Bs, nu0) ==
   LET V == ChromGens(s)
       F == ConeFacets(V)
       rows == {k \in 1..Len(Bs) : ~IsZero(Bs[k])}
-      alphas == {ExitMultiple(F, Bs[k], nu0) : k \in rows}
+      alphas == {ExitMultiple(F, Bs[k], nu0) : k \in rows} \ {<<INF, 1>>}     \* rows on the neutral direction never exit
       amin == IF alphas = {} THEN <<INF, 1>> ELSE CHOOSE m \in alphas : \A o \in alphas : RLeq(m, o)
       allin == \A k \in rows : InCone_H(V, Bs[k])
       alpha == IF allin \/ amin[1] = INF THEN <<1, 1>> ELSE amin
